@@ -224,7 +224,33 @@ func c13Eval(t *fw.T, c *fw.Case) {
 	vs = append(vs, variant{"alias-of-object-type", base + "TYPE @objRef2\n  {\"a\": 1}\nTYPE @aliasRef2\n  @objRef2\nGET /zq/{q}\n  Path\n    {\n      \"q\": @aliasRef2\n    }\n  200 any\n"})
 	vs = append(vs, variant{"alias-in-type-list", base + "TYPE @objRef3\n  [1, 2]\nTYPE @aliasRef3\n  @objRef3\nGET /zp/{q}\n  Path\n    {\n      \"q\": @name | @aliasRef3\n    }\n  200 any\n"})
 	vs = append(vs, variant{"object-type-in-type-list", base + "TYPE @objRef4\n  {\"a\": 1}\nGET /zo/{q}\n  Path\n    {\n      \"q\": @name | @objRef4\n    }\n  200 any\n"})
+	vs = append(vs, variant{"empty-object-typed-any", base + "GET /zn/{q}\n  Path\n    {\n      \"q\": {} // {type: \"any\"}\n    }\n  200 any\n"})
+	vs = append(vs, variant{"empty-array-typed-any", base + "GET /zm/{q}\n  Path\n    {\n      \"q\": [] // {type: \"any\"}\n    }\n  200 any\n"})
 	vs = append(vs, variant{"two-path-directives", base + "GET /zu/{q}/{r}\n  Path\n    {\n      \"q\": 1\n    }\n  Path\n    {\n      \"r\": 1\n    }\n  200 any\n"})
+	// '.' and '..' are ordinary path segments: a declaration for /dotz/{id} says nothing about /dotz/./{id} or /x/../dotz/{id}
+	{
+		extra := base + "URL /dotz/{id}\n  Path\n    {\n      \"id\": 1\n    }\n  GET\n    200 any\nGET /dotz/./{id}\n  200 any\nGET /dotx/../dotz/{id}\n  200 any\nGET /dotz//{id}/more\n  200 any\n"
+		de := run.Single([]byte(extra))
+		oe := t.Exec(de)
+		t.Count("dot_segment_documents")
+		if oe.Outcome != run.Accepted {
+			c.Docs = []run.Doc{de}
+			t.Violation("valid-path-tree-rejected:dot-segments:"+outcomeSig(oe), fmt.Sprintf("%s\n%s", describe(oe), extra))
+		} else if ge, err := jsonx.Parse(oe.JSON); err == nil {
+			in := ge.Root.Get("interactions")
+			for key, want := range map[string]bool{"http GET /dotz/{id}": true, "http GET /dotz/./{id}": false, "http GET /dotx/../dotz/{id}": false} {
+				iv := in.Get(key)
+				if iv == nil {
+					t.Violation("path-variables-differ:dot-segments-missing", fmt.Sprintf("interaction %q is not in the catalog\n%s", key, extra))
+					continue
+				}
+				if iv.Has("pathVariables") != want {
+					c.Docs = []run.Doc{de}
+					t.Violation("path-variables-differ:dot-segments", fmt.Sprintf("interaction %q: pathVariables present=%v, expected %v ('.' and '..' are ordinary segments)\n%s", key, iv.Has("pathVariables"), want, extra))
+				}
+			}
+		}
+	}
 	for _, v := range vs {
 		dv := run.Single([]byte(v.text))
 		ov := t.Exec(dv)
